@@ -329,7 +329,16 @@ def conformant_session(g, npk=8, unknown=True, multi_tmpl=True, parsers=("A", "B
                     kinds_ = {e.tm[t][0] for t in tids}
                     if len(kinds_) > 1:
                         tids = tids[:1]
+                    fresh = None
+                    if multi_tmpl and r.random() < 0.5:
+                        # ... together with a new (or changed) definition in the same set, used right away
+                        fresh = r.choice([t for t in e.ids if t not in tids] or [None])
+                        if fresh is not None:
+                            e.new_def(fresh, kind=e.tm[tids[0]][0], unknown=unknown)
+                            tids = tids + [fresh]
                     sets.append(e.tmpl_set(tids))
+                    if fresh is not None:
+                        sets.append(e.data(fresh))
                 elif mm < 0.4 or not known:
                     n = r.choice([1, 1, 1, 2, 3]) if multi_tmpl else 1
                     tids = r.sample(e.ids, min(n, len(e.ids)))
